@@ -131,7 +131,7 @@ def min_bytes(n):
     return max(1, (n.bit_length() + 7) // 8)
 
 
-def encode(roots, *, magic='generic', has_idx=False, has_crc=False, has_cache_bits=False,
+def encode(roots, *, magic='generic', has_idx=False, has_crc=False, has_cache_bits=False, cache_set=(),
            size=None, off_bytes=None, order=None, with_hashes=None, ref_override=None):
     """Encode DAG roots.  `with_hashes`: set of cell hashes to store hashes for (or True for all).
     `ref_override`: {(cell_index, ref_slot): index} - Byzantine encoder writing a bad reference."""
@@ -188,7 +188,7 @@ def encode(roots, *, magic='generic', has_idx=False, has_crc=False, has_cache_bi
         for i, b in enumerate(bodies):
             end += len(b)
             v = end * mult
-            if has_cache_bits and isinstance(has_cache_bits, (list, tuple, set)) and i in has_cache_bits:
+            if has_cache_bits and i in cache_set:
                 v += 1
             out += v.to_bytes(off_bytes, 'big')
     out += payload
